@@ -132,9 +132,10 @@ class KOpt(Kind):
     def sort(self):
         key = ("opt", self.elem)
         if key not in _SORT_CACHE:
-            d = z3.Datatype("Opt_" + _mangle(self.elem))
-            d.declare("none")
-            d.declare("some", ("val", self.elem.sort()))
+            m = _mangle(self.elem)
+            d = z3.Datatype("Opt_" + m)
+            d.declare("none_" + m)
+            d.declare("some_" + m, ("val_" + m, self.elem.sort()))
             _SORT_CACHE[key] = d.create()
         return _SORT_CACHE[key]
 
@@ -153,8 +154,9 @@ class KTuple(Kind):
     def sort(self):
         key = ("tuple", tuple(self.items))
         if key not in _SORT_CACHE:
-            d = z3.Datatype("Tup_" + "_".join(_mangle(i) for i in self.items))
-            d.declare("mk", *[(f"f{i}", k.sort()) for i, k in enumerate(self.items)])
+            nm = "Tup_" + "_".join(_mangle(i) for i in self.items)
+            d = z3.Datatype(nm)
+            d.declare("mk_" + nm, *[(f"{nm}_f{i}", k.sort()) for i, k in enumerate(self.items)])
             _SORT_CACHE[key] = d.create()
         return _SORT_CACHE[key]
 
@@ -175,11 +177,12 @@ class KDict(Kind):
     def sort(self):
         k = ("dict", self.key, self.val)
         if k not in _SORT_CACHE:
-            d = z3.Datatype("Dict_" + _mangle(self.key) + "_" + _mangle(self.val))
+            nm = "Dict_" + _mangle(self.key) + "_" + _mangle(self.val)
+            d = z3.Datatype(nm)
             d.declare(
-                "mk",
-                ("keys", z3.SeqSort(self.key.sort())),
-                ("vals", z3.ArraySort(self.key.sort(), self.val.sort())),
+                "mk_" + nm,
+                (nm + "_keys", z3.SeqSort(self.key.sort())),
+                (nm + "_vals", z3.ArraySort(self.key.sort(), self.val.sort())),
             )
             _SORT_CACHE[k] = d.create()
         return _SORT_CACHE[k]
@@ -203,7 +206,7 @@ class KObj(Kind):
         k = ("obj", self.cls, tuple(self.fields.items()))
         if k not in _SORT_CACHE:
             d = z3.Datatype("Obj_" + self.cls)
-            d.declare("mk", *[(f"{self.cls}_{n}", fk.sort()) for n, fk in self.fields.items()])
+            d.declare("mk_Obj_" + self.cls, *[(f"{self.cls}_{n}", fk.sort()) for n, fk in self.fields.items()])
             _SORT_CACHE[k] = d.create()
         return _SORT_CACHE[k]
 
@@ -224,12 +227,13 @@ class KUnion(Kind):
     def sort(self):
         k = ("union", tuple(self.alts))
         if k not in _SORT_CACHE:
-            d = z3.Datatype("U_" + "_".join(_mangle(a) for a in self.alts))
+            nm = "U_" + "_".join(_mangle(a) for a in self.alts)
+            d = z3.Datatype(nm)
             for i, a in enumerate(self.alts):
                 if a == K_NONE:
-                    d.declare(f"u{i}")
+                    d.declare(f"{nm}_u{i}")
                 else:
-                    d.declare(f"u{i}", (f"u{i}_v", a.sort()))
+                    d.declare(f"{nm}_u{i}", (f"{nm}_u{i}_v", a.sort()))
             _SORT_CACHE[k] = d.create()
         return _SORT_CACHE[k]
 
@@ -448,7 +452,7 @@ def _unbox(t, kind: Kind) -> V:
         return SetV(kind.elem, t)
     if isinstance(kind, KOpt):
         s = kind.sort()
-        return UnionV([(s.is_none(t), NONE), (s.is_some(t), unbox(s.val(t), kind.elem))])
+        return UnionV([(s.recognizer(0)(t), NONE), (s.recognizer(1)(t), unbox(s.accessor(1, 0)(t), kind.elem))])
     if isinstance(kind, KTuple):
         s = kind.sort()
         return TupleV([unbox(s.accessor(0, i)(t), k) for i, k in enumerate(kind.items)])
@@ -519,25 +523,25 @@ def box(v: V, kind: Kind):
     if isinstance(kind, KOpt):
         s = kind.sort()
         if isinstance(v, NoneV):
-            return s.none
+            return s.constructor(0)()
         if isinstance(v, UnionV):
             t = None
             for g, a in reversed(v.alts):
                 bt = box(a, kind)
                 t = bt if t is None else z3.If(g, bt, t)
             return t
-        return s.some(box(v, kind.elem))
+        return s.constructor(1)(box(v, kind.elem))
     if isinstance(kind, KTuple):
         if isinstance(v, TupleV) and len(v.items) == len(kind.items):
-            return kind.sort().mk(*[box(i, k) for i, k in zip(v.items, kind.items)])
+            return kind.sort().constructor(0)(*[box(i, k) for i, k in zip(v.items, kind.items)])
         raise Unsupported(f"box: {v.kind!r} as {kind!r}")
     if isinstance(kind, KDict):
         if isinstance(v, DictV) and v.kk == kind.key and v.vk == kind.val:
-            return kind.sort().mk(v.keys, v.vals)
+            return kind.sort().constructor(0)(v.keys, v.vals)
         raise Unsupported(f"box: {v.kind!r} as {kind!r}")
     if isinstance(kind, KObj):
         if isinstance(v, ObjV):
-            return kind.sort().mk(*[box(v.fields[n], fk) for n, fk in kind.fields.items()])
+            return kind.sort().constructor(0)(*[box(v.fields[n], fk) for n, fk in kind.fields.items()])
         raise Unsupported(f"box: {v.kind!r} as {kind!r}")
     if isinstance(kind, KUnion):
         s = kind.sort()
